@@ -173,9 +173,10 @@ Record c15_state := {
 
 Definition c15_init : c15_state := {| s_obj := None; s_keys := []; s_tables := []; s_next := 0 |}.
 
-(* key lists of one method: relevant args R, compared C, stored S, tables stored with the cache
-   flag TS, tables written by the builder regardless of it TU *)
-Record c15_spec := { k_R : list Z; k_C : list Z; k_S : list Z; k_TS : list Z; k_TU : list Z; k_copy : bool }.
+(* key lists of one method: relevant args R, compared C, stored under `if cache` S, stored whatever
+   the cache flag SU, tables stored with the cache flag TS, tables written by the builder regardless
+   of it TU *)
+Record c15_spec := { k_R : list Z; k_C : list Z; k_S : list Z; k_SU : list Z; k_TS : list Z; k_TU : list Z; k_copy : bool }.
 
 Definition c15_set_tables (keys : list Z) (v : list Z) (t : list (Z * list Z)) : list (Z * list Z) :=
   map (fun k => (k, v)) keys ++ t.
@@ -188,11 +189,13 @@ Definition c15_build (sp : c15_spec) (st : c15_state) (a : c15_args) : list Z * 
   if a_cache a then
     (* the built object is cached; a deep copy (new object) is returned when k_copy *)
     (r, if k_copy sp then S id else id,
-     {| s_obj := Some (id, r); s_keys := map (fun k => (k, c15_key k a)) (k_S sp) ++ s_keys st;
+     {| s_obj := Some (id, r);
+        s_keys := map (fun k => (k, c15_key k a)) (k_S sp) ++ map (fun k => (k, c15_key k a)) (k_SU sp) ++ s_keys st;
         s_tables := c15_set_tables (k_TS sp) r t1; s_next := if k_copy sp then S (S id) else S id |})
   else
     (r, if k_copy sp then S id else id,
-     {| s_obj := s_obj st; s_keys := s_keys st; s_tables := t1; s_next := if k_copy sp then S (S id) else S id |}).
+     {| s_obj := s_obj st; s_keys := map (fun k => (k, c15_key k a)) (k_SU sp) ++ s_keys st; s_tables := t1;
+        s_next := if k_copy sp then S (S id) else S id |}).
 
 (* one Grid.to_* call: (what the returned object was built from, identity of the returned object,
    new state) *)
@@ -218,9 +221,11 @@ Definition c15_da_call (sp : c15_spec) (reads : list Z) (st : c15_state) (a : c1
   let '(built, _, st') := c15_call sp st a in
   (built, map (fun k => c15_lookup k (s_tables st')) reads, st').
 
-(* the key lists are usable: every relevant argument is compared, every compared key is stored *)
+(* the key lists are usable: every relevant argument is compared, every compared key is stored
+   together with the object, and no key is written when nothing is cached *)
 Definition c15_incl (a b : list Z) : bool := forallb (fun x => existsb (Z.eqb x) b) a.
-Definition c15_keys_ok (sp : c15_spec) : bool := c15_incl (k_R sp) (k_C sp) && c15_incl (k_C sp) (k_S sp).
+Definition c15_keys_ok (sp : c15_spec) : bool :=
+  c15_incl (k_R sp) (k_C sp) && c15_incl (k_C sp) (k_S sp) && match k_SU sp with [] => true | _ => false end.
 
 (* ---------------------------------------------------------------- E. returned objects *)
 
@@ -264,13 +269,13 @@ Definition c15_steps (sp : c15_spec) (writes copies : bool) (so : c15_state * c1
 
 (* ---------------------------------------------------------------- the three machines as found in the source *)
 Definition c15_sp_gdf : c15_spec :=
-  {| k_R := [1; 2; 3]%Z; k_C := c15_gdf_compared; k_S := c15_gdf_stored; k_TS := c15_gdf_stored_tables;
+  {| k_R := [1; 2; 3]%Z; k_C := c15_gdf_compared; k_S := c15_gdf_stored; k_SU := c15_gdf_stored_uncond; k_TS := c15_gdf_stored_tables;
      k_TU := c15_gdf_uncond_tables; k_copy := c15_gdf_returns_copy |}.
 Definition c15_sp_poly : c15_spec :=
-  {| k_R := [1; 2]%Z; k_C := c15_poly_compared; k_S := c15_poly_stored; k_TS := c15_poly_stored_tables;
+  {| k_R := [1; 2]%Z; k_C := c15_poly_compared; k_S := c15_poly_stored; k_SU := c15_poly_stored_uncond; k_TS := c15_poly_stored_tables;
      k_TU := c15_poly_uncond_tables; k_copy := c15_poly_returns_copy |}.
 Definition c15_sp_line : c15_spec :=
-  {| k_R := [1; 2]%Z; k_C := c15_line_compared; k_S := c15_line_stored; k_TS := c15_line_stored_tables;
+  {| k_R := [1; 2]%Z; k_C := c15_line_compared; k_S := c15_line_stored; k_SU := c15_line_stored_uncond; k_TS := c15_line_stored_tables;
      k_TU := c15_line_uncond_tables; k_copy := c15_line_returns_copy |}.
 
 Definition c15_mk (per proj : Z) (cache : bool) : c15_args :=
